@@ -8,7 +8,7 @@ from sa.engine.cfg import normally_dominates
 from sa.engine.consts import UNKNOWN
 from sa.engine.context import Ctx
 from sa.engine.guards import path_conditions
-from sa.engine.loader import AnalysisError, dotted, norm, short, walk_own
+from sa.engine.loader import anorm, AnalysisError, dotted, norm, short, walk_own
 from sa.engine.report import Finding, RuleReport
 from sa.engine.shape import compare_function
 from sa.rules.common import X
@@ -243,6 +243,18 @@ def rule_path(ctx: Ctx) -> RuleReport:
                 if tests and n.lineno > min(t.lineno for t in tests):
                     rewritten = True
                     rep.fail(Finding("C09-PATH", SZ, SANITISER, short(n, 80), "the checked path is reassigned after the containment test", line=n.lineno))
+    # the containment test compares with the base directory *plus a separator*: a bare prefix test accepts the sibling '/tmp/x.bak' of '/tmp/x'
+    for n in walk_own(sj.node):
+        if isinstance(n, ast.Call) and isinstance(n.func, ast.Attribute) and n.func.attr == "startswith" and n.args and isinstance(n.func.value, ast.Name) and n.func.value.id in checked:
+            a = n.args[0]
+            if not any(isinstance(x, ast.Name) for x in ast.walk(a)):
+                continue  # a test against literal characters (leading separator), not the containment test
+            with_sep = isinstance(a, ast.BinOp) and isinstance(a.op, ast.Add) and (norm(a.right) in ("os.sep", "os.path.sep", "'/'", "sep")) or (isinstance(a, ast.Call) and (dotted(a.func) or "").endswith("join") and a.args and isinstance(a.args[-1], ast.Constant) and a.args[-1].value == "")
+            if with_sep:
+                rep.ok({"_safe_join": f"containment by prefix + separator: {short(n, 60)}"})
+            else:
+                rewritten = True
+                rep.fail(Finding("C09-PATH", SZ, SANITISER, "containment by bare prefix: " + anorm(n, sj.node), f"`{short(n, 60)}` accepts every path that merely *starts with the text* of the extraction directory: the member '../<dir>.bak/evil.txt' lands in a sibling directory whose name begins like the extraction directory, outside of it", line=n.lineno))
     r = compare_function(sj.node, tmpl)
     if rewritten:
         pass
